@@ -798,7 +798,7 @@ func ruleC15ListEndsNonEmpty(c *Ctx) {
 							}
 							isLen := func(x ssa.Value) bool {
 								lc, ok := resolve(x).(*ssa.Call)
-								return ok && lc.Call.StaticCallee() != nil && funcFullName(lc.Call.StaticCallee()) == "(*container/list.List).Len" && accessPath(lc.Call.Args[0]) == listPath
+								return ok && lc.Call.StaticCallee() != nil && funcFullName(lc.Call.StaticCallee()) == "(*container/list.List).Len" && trimAddr(fct.pathOf(lc.Call.Args[0])) == trimAddr(listPath)
 							}
 							switch {
 							case b.Op == token.GTR && isLen(b.X) && fct.True,
